@@ -5,12 +5,14 @@ import CopVerif.Gen.Effects
 /-! Driver commands for C20: the write-effect checker evaluated on the program GENERATED from /repo
     (`Gen.Effects`), and the plot model on frames of opaque cell tokens.
 
+    The module is decoded once by `Main/Effects.lean` (`Gen.Effects.module?`) and passed in.
+
     * `effects count`                → `ok <number of entry points>`
+    * `effects size`                 → `ok <#functions> <#statements>`
     * `effects entry <i>`            → `ok <name> <fn> <accept|reject> <#stmts> <#params> {<pname> <var> <0|1>}`
                                         (1 = the checker cannot exclude a write to that parameter's object or to an object held inside it)
     * `effects flat <i>`             → `ok {p:<x> | a:<x>:<y> | f:<x> | w:<x>}` the flat statement set
     * `effects session <i> <j> …`    → `ok <accept|reject> {<var>}` may-written parameters of the union
-    * `effects var <v>` / `effects fn <k>` → `ok <name>`
     * `plot <2|3> <scatter|compare> <ncols> <col…> <nreq|-1> <req…> <nreal> <cells…> [<nsynth> <cells…>]`
                                      → `ok <#traces> {<Real|Synthetic> <#points> <cells…>}` | `err <kind>` -/
 namespace CopVerif.Driver
@@ -25,35 +27,28 @@ def showStmt : Stmt → String
 
 def entryAt (i : Nat) : Option (String × Nat × List (String × Var × Var)) := Gen.Effects.entries[i]?
 
-def effects (ws : List String) : String :=
+def effects (m : Module) (ws : List String) : String :=
   match ws with
   | ["count"] => s!"ok {Gen.Effects.entries.length}"
+  | ["size"] => s!"ok {m.size} {m.foldl (fun a f => a + f.body.length) 0}"
   | ["entry", i] =>
     match i.toNat? >>= entryAt with
     | some (name, f, ps) =>
-      let prog := flatten Gen.Effects.module f
+      let prog := flatten m f
       let verdict := if noParamWrite prog then "accept" else "reject"
       let per := ps.map fun (pn, v, c) => s!"{pn} {v} {if safeFrom prog [v, c] then 0 else 1}"
       s!"ok {name} {f} {verdict} {prog.length} {ps.length} " ++ " ".intercalate per
     | none => "bad-op"
   | ["flat", i] =>
     match i.toNat? >>= entryAt with
-    | some (_, f, _) => "ok " ++ " ".intercalate ((flatten Gen.Effects.module f).map showStmt)
+    | some (_, f, _) => "ok " ++ " ".intercalate ((flatten m f).map showStmt)
     | none => "bad-op"
   | "session" :: is =>
     match is.mapM (fun i => i.toNat? >>= entryAt) with
     | some es =>
-      let prog := flattenMany Gen.Effects.module (es.map (·.2.1))
+      let prog := flattenMany m (es.map (·.2.1))
       let verdict := if noParamWrite prog then "accept" else "reject"
       s!"ok {verdict} " ++ " ".intercalate ((mayWrite prog).map toString)
-    | none => "bad-op"
-  | ["var", v] =>
-    match v.toNat? with
-    | some v => "ok " ++ (Gen.Effects.varNames.getD v "?").replace " " "_"
-    | none => "bad-op"
-  | ["fn", k] =>
-    match k.toNat? with
-    | some k => "ok " ++ (Gen.Effects.fnNames.getD k "?").replace " " "_"
     | none => "bad-op"
   | _ => "bad-op"
 
